@@ -202,7 +202,12 @@ def analyse(src: Source) -> List[Report]:
                 if lvar is None:
                     ok = norm(half) == norm(lelt)
                 elif lvar == "@elt":  # L = tuple(W): H must be tuple(w / 2 for w in W)
-                    ok = hvar is not None and hiter is not None and norm(hiter) == norm(liter) \
+                    # (or over the length tuple that was just stored: the same values)
+                    def bare(e_):
+                        while isinstance(e_, ast.Call) and isinstance(e_.func, ast.Name) and e_.func.id in ("tuple", "list") and len(e_.args) == 1:
+                            e_ = e_.args[0]
+                        return norm(e_)
+                    ok = hvar is not None and hiter is not None and (bare(hiter) == bare(liter) or norm(hiter).split(".")[-1] == ln) \
                         and isinstance(half, ast.Name) and half.id == hvar
                 else:  # L = tuple(e for v in it): same element expression, not depending on different loop variables
                     ok = norm(half) == norm(lelt) and hvar is not None
@@ -217,8 +222,8 @@ def analyse(src: Source) -> List[Report]:
                 g = _positivity_guard(fn, lst, lelt, None) if isinstance(lelt, ast.Name) else False
             rep.ob("R15.0-positive", g, Loc(f, lst.lineno, fn.name), lst,
                    f"no `if <length> <= 0: raise` guard dominates the assignment of {ln}")
-    rep.expect_min("R15.0-half", 3)
-    rep.expect_min("R15.0-positive", 3)
+    rep.expect_min("R15.0-half", 2)     # the cubic module may delegate the cuboid globals to the cuboid setter
+    rep.expect_min("R15.0-positive", 2)
 
     # ---- concrete boundary classes -----------------------------------------------------------------------------
     classes: List[Tuple[str, ast.ClassDef]] = []
@@ -450,6 +455,22 @@ def _check_separation_vector(m: ast.FunctionDef, clsname: str, resolve_symbol, e
         return None, "idiom not recognised"
     spec = entry_specs["correct_separation_entry"]
     first = body[0]
+    # `sep = [..]; ...; return [f(i, e) for i, e in enumerate(sep)]` (a new list instead of the correction in place) is the loop
+    # `for i, e in enumerate(sep): sep[i] = f(i, e)` followed by `return sep`
+    if len(body) >= 2 and isinstance(first, ast.Assign) and isinstance(first.targets[0], ast.Name) and isinstance(body[-1].value, ast.ListComp) \
+            and len(body[-1].value.generators) == 1 and not body[-1].value.generators[0].ifs:
+        sep0 = first.targets[0].id
+        g = body[-1].value.generators[0]
+        tgt_txt, it_txt = norm(g.target), norm(g.iter)
+        loop_src = None
+        if it_txt == f"enumerate({sep0})" and isinstance(g.target, ast.Tuple) and len(g.target.elts) == 2:
+            loop_src = f"for {ast.unparse(g.target)} in enumerate({sep0}):\n    {sep0}[{norm(g.target.elts[0])}] = {ast.unparse(body[-1].value.elt)}"
+        elif it_txt == sep0 and isinstance(g.target, ast.Name):
+            loop_src = f"for __i, {g.target.id} in enumerate({sep0}):\n    {sep0}[__i] = {ast.unparse(body[-1].value.elt)}"
+        elif it_txt in ("range(dimension)", f"range(len({sep0}))") and isinstance(g.target, ast.Name):
+            loop_src = f"for {g.target.id} in {ast.unparse(g.iter)}:\n    {sep0}[{g.target.id}] = {ast.unparse(body[-1].value.elt)}"
+        if loop_src is not None:
+            body = body[:-1] + [ast.parse(loop_src).body[0], ast.parse(f"return {sep0}").body[0]]
     # form 1: return [entry(tgt[i] - ref[i], i) for i in range(dimension)]
     comp = None
     if len(body) == 1 and isinstance(body[0].value, ast.ListComp):
@@ -470,8 +491,15 @@ def _check_separation_vector(m: ast.FunctionDef, clsname: str, resolve_symbol, e
         pass
     elif isinstance(elt, ast.Call) and len(elt.args) == 2 and norm(elt.args[0]) == diff:
         stmts.append(ast.parse(f"__v[{i}] = {ast.unparse(elt).replace(diff, '__v[' + i + ']')}").body[0])
-    else:
+    elif norm(elt).count(diff) == 1:
+        # the difference corrected by an expression written in place
+        stmts.append(ast.parse(f"__v[{i}] = {ast.unparse(elt).replace(ast.unparse(ast.parse(diff).body[0].value), '__v[' + i + ']')}").body[0])
+        if "__v[" not in ast.unparse(stmts[-1].value):
+            return None, f"component expression not recognised: {norm(elt)}"
+    elif f"{ref}[{i}] - {tgt}[{i}]" in norm(elt):
         return False, f"separation must start from target - reference per component (found {norm(elt)})"
+    else:
+        return None, f"component expression not recognised: {norm(elt)}"
     vec = "__v"
     idx = i
     loops_done = False
